@@ -100,6 +100,12 @@ pub fn int_sweep(ty: &str, lo: i64, hi: i64) -> J {
     }
 }
 
+/// the same JSON document: `==` on serde_json values identifies -0.0 with 0.0, so the rendered text must agree too
+/// (sign of zero, integer vs float spelling of a number)
+fn same_doc(a: &J, b: &J) -> bool {
+    a == b && serde_json::to_string(a).ok() == serde_json::to_string(b).ok()
+}
+
 /// C13: a JSON text through serde_json's parser, then viewed through deserr and converted back
 fn kinds_agree(v: &J) -> bool {
     use deserr::IntoValue;
@@ -130,10 +136,10 @@ pub fn json_deep(kind: &str, depth: usize) -> J {
     let calls1 = rec::take_trace().len();
     let back: J = J::from(j.clone().into_value());
     let res = json!({
-        "deser_same": matches!(&d1, Ok(Ok(v)) if *v == j),
+        "deser_same": matches!(&d1, Ok(Ok(v)) if same_doc(v, &j)),
         "panicked": d1.is_err(),
         "calls": calls1,
-        "from_same": back == j,
+        "from_same": same_doc(&back, &j),
         "kinds_agree": kinds_agree(&j),
     });
     res
@@ -156,10 +162,10 @@ pub fn json_case(text: &str) -> J {
     let back: J = J::from(j.clone().into_value());
     json!({
         "view": crate::ov::ov_to_wire(&view),
-        "deser_same": matches!(&d1, Ok(Ok(v)) if *v == j),
-        "deser_ov_same": matches!(&d2, Ok(Ok(v)) if *v == j),
+        "deser_same": matches!(&d1, Ok(Ok(v)) if same_doc(v, &j)),
+        "deser_ov_same": matches!(&d2, Ok(Ok(v)) if same_doc(v, &j)),
         "calls": calls1 + calls2,
-        "from_same": back == j,
+        "from_same": same_doc(&back, &j),
         "kinds_agree": kinds_agree(&j),
     })
 }
